@@ -48,6 +48,28 @@ class FakeJob:
         world.next_pid += 1
         self.returncode = None
         self.alive = True
+        # scenario option job_events: the job's own process logs structured events into job-outputs/<job>/events.log
+        # (what a JADE extension does); the handle stays open for the life of the process, so a file unlinked by somebody
+        # else swallows the later events exactly as on a real file system
+        self._evf = None
+        if world.scen.get("job_events"):
+            with raw():
+                d = os.path.join(env.get("JADE_RUNTIME_OUTPUT") or world.root, "job-outputs", name)
+                os.makedirs(d, exist_ok=True)
+                self._evf = open(os.path.join(d, "events.log"), "a")
+            self._event("start")
+
+    def _event(self, phase):
+        if self._evf is None:
+            return
+        import json as _json
+
+        rec = dict(source=self.name, category="job", name="job_evt", message=phase, event_class="StructuredLogEvent",
+                   timestamp="2026-01-01 10:00:0%d.000000" % (0 if phase == "start" else 1), data={"pid": self.pid, "phase": phase})
+        with raw():
+            self._evf.write(_json.dumps(rec, sort_keys=True) + "\n")
+            self._evf.flush()
+        self.world.data.setdefault("job_events_written", []).append((self.name, phase))
 
     def poll(self):
         return self.returncode
@@ -60,6 +82,10 @@ class FakeJob:
     def finish(self):
         w = self.world
         code = w.sim.exit_code_for(self.name)
+        self._event("end")
+        if self._evf is not None:
+            with raw():
+                self._evf.close()
         self.returncode = code
         self.alive = False
         self.vp.jobs.pop(self.name, None)
